@@ -77,3 +77,12 @@ Print Assumptions C20_offsets_file.
 Theorem C20_transforms : S_run_xop.
 Proof. exact run_xop_correct. Qed.
 Print Assumptions C20_transforms.
+
+(* ---- links ---- *)
+(** C20 o C12 o C04: [to bvgraph] at file level — the source configuration is known only
+    through its properties text, the target's reader sees only the target's text and the
+    spliced stream, and obtains the same graph *)
+From WG Require Import Links.LoadLinkStatements Links.LoadLinkFacts.
+Theorem C20_link_recompress_files : S_link_recompress_files.
+Proof. exact link_recompress_files. Qed.
+Print Assumptions C20_link_recompress_files.
